@@ -1,5 +1,6 @@
 import Spine.Header
 import Spine.RobThm
+import Spine.RobEv
 import Spine.Wedge
 import Spine.Dispatch
 /-!
@@ -33,6 +34,12 @@ What is a theorem here and what is not:
   of the payload, then the answer through the sender) panics on no abstract datagram whose payload is a
   detailed-discovery read / reply / notification or one of the four subscription / binding calls addressed to
   node management, or that the header layer already decides.
+* **Event layer** (`Spine/RobEv.lean`: the events a discovery arrival publishes, with `Feature : Option`, over the
+  repaired discovery member; event-shape table recorded on HEAD). *Proved*: every published event has the table's
+  non-nil shape, so no core or application handler dereferences a nil field (`c05_event_shape_total`); *refuted*
+  for the member that resolves the Feature after the tree update (`c05_event_shape_late_refuted`). Tied on every
+  run: the table against every event of every delivery, the event lists against 192 discovery arrivals whose
+  header is varied independently of the payload.
 * **Still serves** (`Spine.Disc` remote tree + `Spine.Disp.processCmd`). *Proved*: a discovery read is answered
   with exactly one reply iff the peer's node-management feature is still known (`c05_still_serves`,
   `c05_wedged_is_silent`). The invariant `c05_nm_present` is *refuted* for the code as written by three witnesses
@@ -378,6 +385,50 @@ example :
     Rob.handle .repaired .repaired .repaired { okDgram with body := .outside } = .outside := by
   decide
 
+
+/-! ## event layer -/
+
+/-- the peer's tree after its ordinary discovery reply: node management, entity `[1]` with features 1, 2, 3 -/
+def evTree : Rob.Tree := [([0], [0]), ([1], [1, 2, 3])]
+
+/-- a reply that announces entity `[1]` again with feature 1 only -/
+def shorter : Rob.Payload :=
+  { okPayload with
+    ents := [{ okEnt with entity := some [0] }, okEnt],
+    feats := [{ okFeat with entity := some [0], feature := some 0 }, okFeat] }
+
+/-- C05, event layer (a crash that surfaces in another layer than the one parsing the message): for every tree,
+    every source feature the datagram claims to come from and every discovery payload — reply, partial and full
+    notification — each event the code publishes has exactly the non-nil shape of the table `Rob.shapeOf`, and
+    therefore no handler (core: `DeviceLocal.HandleEvent`; application: every promised field) dereferences a nil
+    `Device`, `Entity`, `Feature` or `LocalFeature`. -/
+theorem c05_event_shape_total (t : Rob.Tree) (src : List Nat × Nat) (p : Rob.Payload) :
+    (∀ e ∈ Rob.replyEvents false t src p, e.shape = Rob.shapeOf e.kind ∧ e.safe = true) ∧
+    (∀ e ∈ Rob.notifyPartialEvents t p, e.shape = Rob.shapeOf e.kind ∧ e.safe = true) ∧
+    (∀ e ∈ Rob.notifyFullEvents t p, e.shape = Rob.shapeOf e.kind ∧ e.safe = true) :=
+  ⟨fun e he => ⟨Rob.replyEvents_shaped t src p e he, Rob.safe_of_shape e (Rob.replyEvents_shaped t src p e he)⟩,
+   fun e he => ⟨Rob.notifyPartialEvents_shaped t p e he, Rob.safe_of_shape e (Rob.notifyPartialEvents_shaped t p e he)⟩,
+   fun e he => ⟨Rob.notifyFullEvents_shaped t p e he, Rob.safe_of_shape e (Rob.notifyFullEvents_shaped t p e he)⟩⟩
+
+/-- non-vacuity: arrivals do publish events — the reply sent from feature `[1]/2` that no longer announces it
+    publishes the device-change event *with* its Feature; a full notification adds and removes entities -/
+example :
+    Rob.replyEvents false evTree ([1], 2) shorter = [⟨.deviceAdd, true, none, some ([1], 2), false⟩] ∧
+    (Rob.notifyFullEvents evTree { shorter with ents := [{ okEnt with entity := some [0] }, { okEnt with entity := some [2] }] }).map (·.kind)
+      = [.entityAdd, .entityRemove] := by
+  decide
+
+/-- REFUTED for the member that resolves the event's Feature again *after* the tree update (seeded change
+    C05-r3-2; not the code): the same reply publishes a device-change event without Feature, which the core handler
+    dereferences — while the parsing layers (`handle`) accept the datagram. With node management as source the
+    member is indistinguishable from the code (feature 0 of entity `[0]` is kept), which is why only arrivals whose
+    header is varied independently of the payload see it. -/
+theorem c05_event_shape_late_refuted :
+    Rob.replyEvents true evTree ([1], 2) shorter = [⟨.deviceAdd, true, none, none, false⟩] ∧
+    (∃ e ∈ Rob.replyEvents true evTree ([1], 2) shorter, e.safe = false) ∧
+    Rob.replyEvents true evTree ([0], 0) shorter = Rob.replyEvents false evTree ([0], 0) shorter ∧
+    Rob.reply .repaired [[0], [1]] shorter = .done := by
+  refine ⟨by decide, ⟨⟨.deviceAdd, true, none, none, false⟩, by decide, by decide⟩, by decide, by decide⟩
 
 /-! ## still serves -/
 
